@@ -425,6 +425,32 @@ def giveup_leg(ctx, parent, corr_broken):
     ctx.corr["gzip_level_cli"] = grows
     if len(grows) < 5:
         corr_broken.append("gzip-level replay (TestVerifToFileGzipLevelBin)")
+    # the other start-up checks of main(): generated argument vectors on the real binary vs Model.ToFileMain.refuses
+    mout_dir = os.path.join(ctx.work, "tf_main")
+    os.makedirs(mout_dir, exist_ok=True)
+    rc, mlog = ctx.run_cmd([parent, "-test.run", "^TestVerifToFileMainBin$", "-test.count=1", "-test.timeout=0"], timeout=600,
+                           env={"VF_E8_TOFILE_BIN": binp, "VERIF_SEED": ctx.seed, "VERIF_OUT": mout_dir, "VERIF_N": ctx.budget(36, 200)})
+    if rc != 0 or "ORACLE-DONE main" not in mlog:
+        ctx.log("main() start-up leg failed:\n" + mlog[-800:])
+        corr_broken.append("main start-up leg exit %s" % rc)
+    else:
+        mops = open(os.path.join(mout_dir, "tfmain.ops")).read().splitlines()
+        mimpl = open(os.path.join(mout_dir, "tfmain.impl")).read().splitlines()
+        rc, mo = ctx.driver("e8", stdin_path=os.path.join(mout_dir, "tfmain.ops"))
+        mh = {}
+        for o, i in zip(mops, mimpl):
+            mh[i] = mh.get(i, 0) + 1
+            ctx.count_case(o + "|" + i, nontrivial=True)
+        ctx.corr["main_startup"] = {"vectors": len(mops), "histogram": mh}
+        for idx, a, b in ctx.diff_lines(mimpl, mo.splitlines(), "tofile-main"):
+            ctx.log("main(): model/impl disagree on `%s`: impl=%s model=%s" % (mops[idx], a, b))
+            corr_broken.append("correspondence main start-up checks")
+            if a == "started" and b == "refused":
+                ctx.violation("tofile-main-accepts-invalid", "nsq_to_file started with an option set its start-up checks (as modelled: "
+                              "Props.C19Disc.started_iff) refuse: " + mops[idx], mops[idx] + "\n")
+            elif a == "refused" and b == "started":
+                ctx.violation("tofile-main-refuses-valid", "nsq_to_file refused an option set its start-up checks (as modelled) accept: "
+                              + mops[idx], mops[idx] + "\n")
     for g in grows:
         ctx.evaluations += 1
         ctx.count_case("gzlevel|%s|%s" % (g["level"], g["started"]), nontrivial=True)
